@@ -12,6 +12,7 @@ def waitCase (c : S) : List String :=
   | _ :: _ :: _ :: .atom "shape" :: _ => ["SHAPE ok"]
   | _ :: _ :: _ :: .atom "abandon" :: _ => ["ABANDON ok"]
   | _ :: _ :: _ :: .atom "cross" :: _ => ["CROSS ok"]
+  | _ :: _ :: _ :: .atom "crowd" :: _ => ["CROWD ok"]
   | _ => ["BADKIND"]
 
 end Ysgo.Drv
